@@ -21,6 +21,7 @@ RULE = (
     'states, labels, cut-off, resolution).'
 )
 RULE += ' Added in rounds 5-10: per-atom species variants of one symbol; recurring cut-offs with results scribbled on after use; label vocabularies whose natural and string order differ; skewed cells with cut-offs between half the perpendicular width and half the shortest edge; one system with 1.8e7 pair distances (additivity over frame ranges + brute force on single frames).'
+RULE += ' Round 16: species selections also as set / frozenset / dict keys.'
 RULE += ' Round 15: a fifth of the systems with one distinct, sorted label per site; the previous / next site views read by the per-state RDF are retained and must not change.'
 RULE += ' Round 14: the second species of the pair RDF also as a collection naming it repeatedly.'
 RULE += ' Round 12: for a third of the systems framework atoms are placed 1.5e-9..4.5e-9 A beyond a bin edge from a diffusing atom; the bin-edge ambiguity band is 1e-9 A.'
@@ -213,6 +214,15 @@ def run_unit(unit, rng, ctx):
                 # the atoms selected - and the ideal-gas density - are those of the species, each once
                 a2 = [s2] * int(rng.integers(2, 4)) if form == 4 else [n_ for n_ in names if n_ == s2]
                 ctx.count('second_species_given_as_a_collection_with_repeated_names')
+            if rng.uniform() < 0.3:
+                # unordered collections are collections too: set, frozenset, the keys of a dict
+                which_ = int(rng.integers(3))
+                mk_ = [lambda x_: {x_}, lambda x_: frozenset([x_]), lambda x_: {x_: 1}.keys()][which_]
+                if rng.integers(2):
+                    a1 = mk_(s1)
+                else:
+                    a2 = mk_(s2)
+                ctx.count('species_given_as_set_frozenset_or_dict_keys')
             if rng.integers(2):
                 out = traj.radial_distribution_between_species(specie_1=a1, specie_2=a2, max_dist=max_dist, resolution=res)
                 ctx.count('via_Trajectory.radial_distribution_between_species')
